@@ -32,8 +32,9 @@ def NarrowKeeps (tbl : ClassTable) (T : BoolTable) : Prop :=
 `len` comparisons, TypeIs, TypeGuard, class pattern, assert_is_instance, assert_is), both polarities
 and every object `o ∈ V` on which the test is defined (`condOk`): if the test evaluates to `pol` on
 `o` and the input is in none of the exception classes (`d02 … = []`: `noIntersection`, `promote`,
-`acceptsNonMember`, `literalInexact`, `alwaysTrueWrong`, `promoteIsValue`), then `o` belongs to the
-narrowed type of the branch taken. No bound on the size of `V`, of the literals or of the object. -/
+`acceptsNonMember`, `literalInexact`, `alwaysTrueWrong`, `promoteIsValue`; on the live tables
+`alwaysTrueWrong` is empty, see `alwaysTrueWrong_absent_live`), then `o` belongs to the narrowed type
+of the branch taken. No bound on the size of `V`, of the literals or of the object. -/
 theorem narrow_keeps_partial (tbl : ClassTable) (T : BoolTable) (hL : narrowLaws tbl T = true)
     (V : Ty) (c : Cond) (pol : Bool) (o : Obj)
     (hV : valueOk V = true) (hc : condOk tbl c o = true) (hw : condWf tbl c = true)
@@ -58,15 +59,44 @@ theorem narrow_no_widen (tbl : ClassTable) (T : BoolTable) (hL : narrowLaws tbl 
     mem tbl o V = true ∨ mem tbl o (tested c) = true :=
   narrow_no_widen_core (nlaws_of tbl T hL) hw h
 
+/-- Obligation over the regenerated tables: no class that `_get_type_boolability` calls "always
+true" has a class with falsy instances below it (holds since /repo c376956; before it `Hashable`,
+`Iterable` and `Container` violated it). -/
+theorem liveTables_noLeak : noLeakTable liveTable liveBool = true := by decide +kernel
+
 /-- **A verdict "always true" is right for every object of the type** (`value_always_true`,
 `value_always_true_mutable`, `type_always_true`: the three classes `is_safely_true` accepts and the
-negative truthiness branch removes) — unless some member of the value is of a class pyanalyze calls
-always-true although a class with falsy instances lies below it (`verdictLeak`, class
-`alwaysTrueWrong`). -/
+negative truthiness branch removes) — for every value over tables in which no always-true class has a
+class with falsy instances below it (a decidable table-level hypothesis). -/
+theorem always_true_sound (tbl : ClassTable) (T : BoolTable) (hN : noLeakTable tbl T = true)
+    (V : Ty) (o : Obj) (hb : (getBool tbl T V).safelyTrue = true) (hm : mem tbl o V = true) :
+    truthy o = true :=
+  always_true_core hb (verdictLeak_false_of_noLeak hN V) hm
+
+/-- **Full strength on the live tables**: every "always true" verdict of the modelled
+`get_boolability` is right for every member object, for all values. -/
+theorem always_true_sound_live (V : Ty) (o : Obj)
+    (hb : (getBool liveTable liveBool V).safelyTrue = true) (hm : mem liveTable o V = true) :
+    truthy o = true :=
+  always_true_sound liveTable liveBool liveTables_noLeak V o hb hm
+
+/-- The per-value form for arbitrary tables: only the members of `V` need to be free of the leak
+(`verdictLeak`, the table-level form of class `alwaysTrueWrong`). -/
 theorem always_true_sound_partial (tbl : ClassTable) (T : BoolTable) (V : Ty) (o : Obj)
     (hb : (getBool tbl T V).safelyTrue = true) (hD : verdictLeak tbl T V = false)
     (hm : mem tbl o V = true) : truthy o = true :=
   always_true_core hb hD hm
+
+/-- On tables without such a leak no input falls in the exception class `alwaysTrueWrong` … -/
+theorem alwaysTrueWrong_absent (tbl : ClassTable) (T : BoolTable) (hN : noLeakTable tbl T = true)
+    (V : Ty) (c : Cond) (pol : Bool) (o : Obj) (hV : valueOk V = true) :
+    "alwaysTrueWrong" ∉ d02 tbl T V c pol o :=
+  alwaysTrueWrong_absent_core hN hV
+
+/-- … in particular on the live tables: the class is empty there (repaired by /repo c376956). -/
+theorem alwaysTrueWrong_absent_live (V : Ty) (c : Cond) (pol : Bool) (o : Obj)
+    (hV : valueOk V = true) : "alwaysTrueWrong" ∉ d02 liveTable liveBool V c pol o :=
+  alwaysTrueWrong_absent liveTable liveBool liveTables_noLeak V c pol o hV
 
 /-- **A verdict "always false" is right for every object of the type** — full strength; stated for
 `value_always_false` (the only class `is_safely_false` accepts and the positive truthiness branch
@@ -109,7 +139,7 @@ theorem invert_de_morgan (cs : List AC) :
 
 /-! ## Witnesses: the full statement is false in each exception class (live tables)
 
-Class ids of the live table: 1 `int`, 2 `bool`, 3 `float`, 8 `tuple`, 9 `list`, 19 `Hashable`,
+Class ids of the live table: 0 `object`, 1 `int`, 2 `bool`, 3 `float`, 8 `tuple`, 9 `list`, 19 `Hashable`,
 24 `B(A)`, 25 `Cc(A)`, 26 `D(B, Cc)`. The model functions are defined by well-founded recursion, so
 the evaluations unfold the equation lemmas with `simp` and leave the closed table look-ups to
 `decide +kernel`. -/
@@ -148,16 +178,16 @@ theorem noIntersection_witness :
   · simp [d02, flatten1, mem, clsOf, h3, dK, Cond.kAt, Cond.k, unite, dedup, dictMem,
       unann, ca, typedCA, typOf, overlapping, deliteral, h1, h2]
 
-/-- class `acceptsNonMember`: `x: list`, `isinstance(x, Hashable)` is false for `[]`, but
-`Hashable` *accepts* `list` (its `__hash__` attribute exists, it is `None`), so the else branch is
-inferred `Never`. -/
+/-- class `acceptsNonMember`: `x: object`, `isinstance(x, Hashable)` is false for `[]`, but
+`Hashable` *accepts* `object` (which has a `__hash__`), so the else branch is inferred `Never`.
+(The variant `x: list` — `list.__hash__` is `None` — is no longer accepted on the live tree.) -/
 theorem acceptsNonMember_witness :
-    mem liveTable (.list []) (.typed C.list) = true ∧
+    mem liveTable (.list []) (.typed C.object) = true ∧
     holds liveTable (.isinst [19]) (.list []) = false ∧
-    narrow liveTable liveBool (.typed C.list) (.isinst [19]) false = Ty.never ∧
-    d02 liveTable liveBool (.typed C.list) (.isinst [19]) false (.list []) = ["acceptsNonMember"] := by
-  have h1 : liveTable.nominal false 19 C.list = true := by decide +kernel
-  have h2 : sub liveTable C.list C.list = true := by decide +kernel
+    narrow liveTable liveBool (.typed C.object) (.isinst [19]) false = Ty.never ∧
+    d02 liveTable liveBool (.typed C.object) (.isinst [19]) false (.list []) = ["acceptsNonMember"] := by
+  have h1 : liveTable.nominal false 19 C.object = true := by decide +kernel
+  have h2 : sub liveTable C.list C.object = true := by decide +kernel
   have h3 : sub liveTable C.list 19 = false := by decide +kernel
   have h4 : liveTable.issub C.list 19 = false := by decide +kernel
   refine ⟨by simp [mem, clsOf, h2], by simp [holds, clsOf, h4], ?_, ?_⟩
@@ -185,21 +215,24 @@ theorem literalInexact_witness :
   · simp [narrow, constrainKs, Cond.k, flatten1, applySeq, applyK, applyPred, unann, ca, caZipK, Ty.never]
   · simp [d02, flatten1, hm, dK, Cond.kAt, Cond.k, unann, ca, caZipK]
 
-/-- class `alwaysTrueWrong`: `x: Hashable` is "always true" for pyanalyze (no `__bool__`, no
-`__len__`), `0` is hashable and falsy, but the `not x` branch is inferred `Never`. -/
-theorem alwaysTrueWrong_witness :
+/-- Regression witness of the repaired class `alwaysTrueWrong` (/repo c376956): `x: Hashable` is now
+boolable, `0` is hashable and falsy, and the `not x` branch keeps `Hashable`. (Before the repair the
+branch was inferred `Never`; if the defect returns, the regenerated table breaks this theorem and
+`liveTables_noLeak`, and the corpus case fails.) -/
+theorem alwaysTrueWrong_fixed :
     mem liveTable (.int 0) (.typed 19) = true ∧
     holds liveTable .truthy (.int 0) = false ∧
-    narrow liveTable liveBool (.typed 19) .truthy false = Ty.never ∧
-    d02 liveTable liveBool (.typed 19) .truthy false (.int 0) = ["alwaysTrueWrong"] ∧
-    verdictLeak liveTable liveBool (.typed 19) = true := by
-  have h1 : liveBool.typeBool 19 = .typeTrue := by decide +kernel
+    getBool liveTable liveBool (.typed 19) = .boolable ∧
+    narrow liveTable liveBool (.typed 19) .truthy false = .typed 19 ∧
+    d02 liveTable liveBool (.typed 19) .truthy false (.int 0) = [] := by
+  have h1 : liveBool.typeBool 19 = .boolable := by decide +kernel
   have h2 : sub liveTable C.int 19 = true := by decide +kernel
-  refine ⟨by simp [mem, clsOf, h2], by simp [holds, truthy], ?_, ?_, by decide +kernel⟩
+  refine ⟨by simp [mem, clsOf, h2], by simp [holds, truthy], ?_, ?_, ?_⟩
+  · simp [getBool, unannAll, boolNoMvv, h1]
   · simp [narrow, constrainKs, Cond.k, K.invert, flatten1, applySeq, applyK, unann, getBool, unannAll,
-      boolNoMvv, h1, Boolab.safelyTrue, Ty.never]
+      boolNoMvv, h1, Boolab.safelyTrue, unite, dedup, dictMem]
   · simp [d02, flatten1, mem, clsOf, h2, dK, Cond.kAt, Cond.k, K.invert, unann, getBool, unannAll,
-      boolNoMvv, h1, Boolab.safelyTrue, truthy]
+      boolNoMvv, h1, Boolab.safelyTrue]
 
 /-- class `promoteIsValue`: `x: float`, `assert_is(x, True)`: `True` is a `float` by promotion, but
 the `is_value` constraint tests `isinstance(True, float)` and infers `Never`. -/
@@ -276,6 +309,10 @@ example : (getBool liveTable liveBool (.seq C.tuple [.typed C.int, .typed C.str]
   simp [getBool, unannAll, boolNoMvv, isManyAll, Boolab.safelyTrue]
 example : verdictLeak liveTable liveBool (.seq C.tuple [.typed C.int, .typed C.str]) = false := by
   decide +kernel
+/-- a user class without `__bool__`/`__len__` is still "always true" on the live tables: the theorem is not vacuous there -/
+example : (getBool liveTable liveBool (.typed 23)).safelyTrue = true := by
+  have h1 : liveBool.typeBool 23 = .typeTrue := by decide +kernel
+  simp [getBool, unannAll, boolNoMvv, h1, Boolab.safelyTrue]
 example : getBool liveTable liveBool (.seq C.tuple []) = .vaFalse := by
   simp [getBool, unannAll, boolNoMvv]
 
